@@ -12,7 +12,7 @@ def gen(rng):
     kind = rng.choice(["bloom", "bloom", "bloom-ondisk", "cbf", "cms"])
     keys = keys_pool(rng, rng.randint(2, 16))
     return {"kind": kind, "est": rng.choice([1, 2, 3, 5, 10, 40]), "fpr": rng.choice([0.3, 0.1, 0.05, 0.01]), "est2": rng.choice([0, 0, 0, 1, 7]), "strat": rng.choice(["fnv", "md5", "custom"]),
-            "strat2": rng.choice([None, None, None, "fnv", "sha256", "dint:sumlen"]), "a": [rng.choice(keys) for _ in range(rng.randint(0, 12))], "b": [rng.choice(keys) for _ in range(rng.randint(0, 12))], "keys": keys,
+            "strat2": rng.choice([None, None, None, "fnv", "sha256", "dint:sumlen", "firstsame", "firstsame"]), "a": [rng.choice(keys) for _ in range(rng.randint(0, 12))], "b": [rng.choice(keys) for _ in range(rng.randint(0, 12))], "keys": keys,
             "w": rng.choice([2, 3, 50]), "d": rng.choice([1, 2, 4]), "same": rng.random() < 0.15}
 
 
@@ -24,8 +24,21 @@ def check(case):
     import probables as P
 
     fn = strategy(case["strat"])[0]
-    fn2 = strategy(case["strat2"])[0] if case["strat2"] else fn
-    diff_hash = case["strat2"] is not None and case["strat2"] != case["strat"]
+    if case["strat2"] == "firstsame":
+        # same first hash as the receiver's strategy, different afterwards
+        base = fn if fn is not None else P.hashes.default_fnv_1a
+
+        def fn2(key, depth=1, _b=base):
+            r = _b(key, depth)
+            return [r[0]] + [(x * 3 + 1) % 2**64 for x in r[1:]]
+
+        # "different hash function" is what the library can see: hashes("test") at the structure's OWN
+        # depth.  At depth 1 this strategy IS the receiver's strategy, so the operands are compatible.
+        firstsame_base = base
+        diff_hash = None  # decided below, once the depth in use is known
+    else:
+        fn2 = strategy(case["strat2"])[0] if case["strat2"] else fn
+        diff_hash = case["strat2"] is not None and case["strat2"] != case["strat"]
     kind = case["kind"]
     with core.Scratch() as tmp:
         if kind == "cms":
@@ -39,6 +52,8 @@ def check(case):
             res = core.call(a.join, b)
             if bytes(b) != sb:
                 return "join modified its argument"
+            if diff_hash is None:
+                diff_hash = fn2("test", a.depth) != firstsame_base("test", a.depth)
             compatible = not case["est2"] and not diff_hash
             if compatible and res[0] == "err":
                 return f"join of compatible sketches raised {res[1]}"
@@ -61,6 +76,8 @@ def check(case):
                 a.add(k)
             for k in (case["a"] if case["same"] else case["b"]):
                 b.add(k)
+            if diff_hash is None:
+                diff_hash = fn2("test", a.number_hashes) != firstsame_base("test", a.number_hashes)
             compatible = (a.number_bits, a.number_hashes) == (b.number_bits, b.number_hashes) and not diff_hash
             sa, sb = bytes(a.bloom[: a.bloom_length]) if kind != "cbf" else bytes(a.bloom), bytes(b.bloom[: b.bloom_length]) if kind != "cbf" else bytes(b.bloom)
             ca, cb = a.elements_added, b.elements_added
